@@ -61,6 +61,19 @@ CHECKS = {
             "located error on char boundaries, node spans nested in parents, identifier/literal spans re-lex to themselves.",
             "Texts longer than the bounds are covered only through the edit neighbourhoods; 8 MiB stack as in the test suite.",
             "DESIGN.md#c05"),
+    "C06": ("exploration",
+            "bounded-exhaustive enumeration of token sequences and grammar families, differential against CPython's ast (reference grammar) with the specified deviations as rejection rules; print/parse round trip on every accepted input",
+            "ALL bracket-balanced sequences of <=4 (quick) / 6 (thorough) tokens over a 20-token shared alphabet; every ordered pair "
+            "of the 21 binary operators (triples of 13), unary x binary, ternary, lambda, comprehension, subscript/slice and call "
+            "shapes in each of 25 syntactic contexts; ALL parameter lists and argument lists of length <=4 over every kind in "
+            "every order (legal and illegal); ALL statement-line sequences of length <=3/4 over 20 line forms x indentation "
+            "levels: starlark-rust and CPython must agree on accept/reject and on the tree (canonical S-expression). For every "
+            "accepted input and a full-dialect corpus (f-strings, types, load; repository test programs and their 1-token "
+            "edits) the printed module parses to the same tree and is a fixed point of parse-then-print.",
+            "CPython 3.11's grammar is the reference; the deviation rules in py/pysexpr.py (chained comparison/assignment, "
+            "set and generator displays, **, for-else, argument order, bare tuple statements / trailing commas / bare tuple as "
+            "for-iterable - the last three are deliberate in this implementation's grammar) are trusted.",
+            "DESIGN.md#c06"),
     "C07": ("exploration",
             "bounded-exhaustive: every discovered builtin/method x all argument tuples of arity <=2 (3) from a hostile catalogue; all evaluation histories up to length 2/3 over a failure-mode alphabet on one evaluator",
             "Part 1: every global of the extended environment and every attribute of 26 witness values (162 callables, "
